@@ -407,7 +407,10 @@ REORDERED_PAIRS = [("SSTORE SSTORE", _SHUFFLE + " SSTORE SSTORE"), ("MSTORE MSTO
                    ("SLOAD SWAP2 SWAP1 SSTORE", "SWAP2 SWAP1 SWAP2 SWAP1 SSTORE SLOAD".replace("SWAP2 SWAP1 SWAP2 SWAP1", "SWAP1 SWAP2")),
                    ("MLOAD SWAP2 SWAP1 MSTORE", "SWAP1 SWAP2 MSTORE MLOAD"),
                    ("DUP2 DUP2 SSTORE SSTORE SSTORE", "DUP2 DUP2 SSTORE SWAP2 SWAP1 SWAP3 SWAP1 SSTORE SSTORE"),
-                   ("PUSH 0 PUSH 0 MSTORE MSIZE", "MSIZE PUSH 0 PUSH 0 MSTORE"), ("MSIZE DUP2 MLOAD", "DUP1 MLOAD MSIZE SWAP1")]
+                   ("PUSH 0 PUSH 0 MSTORE MSIZE", "MSIZE PUSH 0 PUSH 0 MSTORE"), ("MSIZE DUP2 MLOAD", "DUP1 MLOAD MSIZE SWAP1"),
+                   # two loads of one position, one before and one after a store to a position that may be the same (finding F40)
+                   ("DUP1 MLOAD SWAP1 PUSH 5 DUP4 MSTORE MLOAD", "DUP1 MLOAD SWAP1 PUSH 5 DUP4 MSTORE MLOAD SWAP1"),
+                   ("DUP1 SLOAD SWAP1 PUSH 5 DUP4 SSTORE SLOAD", "DUP1 SLOAD SWAP1 PUSH 5 DUP4 SSTORE SLOAD SWAP1")]
 
 
 _old_cases = cases
